@@ -164,7 +164,12 @@ def run_check(mod, tier, update_expected=False, only=None, keep=False, verbose=F
         if j.expect_reach is not None and nreach < j.expect_reach:
             undecided.append('%s: %d reachability canaries, expected %d' % (j.name, nreach, j.expect_reach))
         for o in reach_bad:
-            undecided.append('%s: reachability canary unreachable (vacuous): %s' % (j.name, o['desc']))
+            # strict jobs: every canary must be reachable.  Non-strict jobs (one harness body shared by many
+            # constant-specialised entry points): only the canaries marked 'end' are mandatory.
+            if getattr(j, 'strict_reach', True) or 'VP_REACH: end' in o['desc']:
+                undecided.append('%s: reachability canary unreachable (vacuous): %s' % (j.name, o['desc']))
+        if nreach and len(reach_bad) == nreach:
+            undecided.append('%s: no reachability canary is reachable (vacuous)' % j.name)
         real = [o for o in obs if o['class'] != 'reach']
         nok = len([o for o in real if o['status'] == 'SUCCESS'])
         if j.kind == 'proof':
